@@ -50,7 +50,8 @@ def parse_pre(s):
 
 def parse_lin(s):
     s = s.strip()
-    toks = re.findall(r'ext\(\$\d+\)|\$\d+(?:->\w+)*|\d+|[-+*]', s)
+    toks = re.findall(r'ext\(\$\d+\)|\$\d+(?:->\w+)*|[A-Za-z_]\w*(?:->\w+)+|\d+|->|[-+*]', s)
+    toks = [t for t in toks if t != '->']
     p = Poly.const(0)
     sign = 1
     cur = None
